@@ -59,6 +59,8 @@ pub fn random_dmin(rng: &mut Rng, period: u64) -> Vec<u64> {
 #[derive(Clone, Debug)]
 pub struct ArrSwarm {
     pub weights: [u64; 9],
+    /// now and then a model that never releases anything
+    pub allow_never: bool,
 }
 
 impl ArrSwarm {
@@ -73,11 +75,15 @@ impl ArrSwarm {
         if w.iter().sum::<u64>() == 0 {
             w[1] = 1;
         }
-        ArrSwarm { weights: w }
+        ArrSwarm {
+            weights: w,
+            allow_never: true,
+        }
     }
     pub fn exact_only() -> ArrSwarm {
         ArrSwarm {
             weights: [20, 40, 0, 30, 0, 0, 0, 0, 0],
+            allow_never: false,
         }
     }
 }
@@ -86,11 +92,14 @@ fn leaf_arrival(rng: &mut Rng, period: u64, kind: usize) -> ArrDesc {
     match kind {
         0 => ArrDesc::Periodic(period),
         1 => {
-            let j = match rng.below(5) {
-                0 => 0,
-                1 => rng.range(0, period / 2 + 1),
-                2 => rng.range(0, period),
-                3 => rng.range(period, 2 * period),
+            let j = match rng.below(20) {
+                0..=3 => 0,
+                4..=7 => rng.range(0, period / 2 + 1),
+                8..=11 => rng.range(0, period),
+                12..=14 => rng.range(period, 2 * period),
+                15 => period * rng.range(1, 4),          // an exact multiple of the period
+                16 => period * rng.range(1, 4) - 1,      // jitter + 1 a multiple of the period
+                17 => rng.range(2 * period, 20 * period), // far above the period
                 _ => rng.range(0, 2 * period),
             };
             ArrDesc::Sporadic(period, j)
@@ -135,18 +144,23 @@ pub fn prefix_from_sporadic(period: u64, jitter: u64, horizon: u64) -> ArrDesc {
 /// Two or three component sources (each of a fraction of the rate; now and then one that never
 /// releases anything), handed over as a Vec, a boxed slice or nested `sum_of`.
 fn superposition(rng: &mut Rng, period: u64) -> ArrDesc {
-    let n = if rng.chance(1, 3) { 3 } else { 2 };
+    let n = match rng.below(30) {
+        0 => 0, // an empty superposition
+        1 => 1,
+        2..=10 => 3,
+        _ => 2,
+    };
     let mut parts = Vec::new();
     for _ in 0..n {
         if rng.chance(1, 8) {
             parts.push(ArrDesc::Never);
         } else {
-            let pb = period * n as u64 + rng.below(period + 1);
+            let pb = period * (n as u64).max(1) + rng.below(period + 1);
             let kb = any_leaf(rng);
             parts.push(leaf_arrival(rng, pb, kb));
         }
     }
-    match rng.below(3) {
+    match rng.below(if parts.len() >= 2 { 3 } else { 2 }) {
         0 => ArrDesc::Vec(parts),
         1 => ArrDesc::Slice(parts),
         _ => {
@@ -161,6 +175,9 @@ fn superposition(rng: &mut Rng, period: u64) -> ArrDesc {
 }
 
 pub fn random_arrival(rng: &mut Rng, period: u64, sw: &ArrSwarm) -> ArrDesc {
+    if sw.allow_never && rng.chance(1, 60) {
+        return ArrDesc::Never;
+    }
     let kind = rng.weighted(&sw.weights);
     match kind {
         0..=3 => leaf_arrival(rng, period, kind),
@@ -170,7 +187,11 @@ pub fn random_arrival(rng: &mut Rng, period: u64, sw: &ArrSwarm) -> ArrDesc {
             } else {
                 rng.range(0, period)
             };
-            let horizon = period * rng.range(1, 4) + rng.below(period);
+            let horizon = if rng.chance(1, 8) {
+                rng.range(1, period) // a single step, or steps ending exactly at the horizon
+            } else {
+                period * rng.range(1, 4) + rng.below(period)
+            };
             prefix_from_sporadic(period, jitter, horizon.max(1))
         }
         5 => {
@@ -181,7 +202,7 @@ pub fn random_arrival(rng: &mut Rng, period: u64, sw: &ArrSwarm) -> ArrDesc {
                 let kk = any_leaf(rng);
                 leaf_arrival(rng, period, kk)
             };
-            let j = rng.range(0, period);
+            let j = if rng.chance(1, 10) { 0 } else { rng.range(0, period) };
             let once = ArrDesc::Jittered(Box::new(inner), j);
             if rng.chance(1, 4) {
                 ArrDesc::Jittered(Box::new(once), rng.range(0, period / 2 + 1))
@@ -230,6 +251,10 @@ pub struct TaskSetSwarm {
     pub max_period: u64,
     pub max_wcet: u64,
     pub prio_ties: bool,
+    /// every task at the same priority level
+    pub all_equal_prio: bool,
+    /// every task a copy of the first one
+    pub identical_tasks: bool,
     pub arr: ArrSwarm,
     pub limit: u64,
 }
@@ -247,7 +272,7 @@ impl TaskSetSwarm {
     }
 
     pub fn random(rng: &mut Rng) -> TaskSetSwarm {
-        let n_tasks = 1 + rng.weighted(&[4, 20, 30, 25, 12, 9]);
+        let n_tasks = 1 + rng.weighted(&[6, 20, 30, 25, 12, 9, 1, 1, 1]);
         let util_pct = match rng.below(10) {
             0 => rng.range(20, 60),
             1..=5 => rng.range(60, 90),
@@ -259,6 +284,8 @@ impl TaskSetSwarm {
             max_period: *rng.pick(&[12u64, 24, 40, 60]),
             max_wcet: *rng.pick(&[3u64, 6, 10]),
             prio_ties: rng.chance(3, 10),
+            all_equal_prio: rng.chance(1, 25),
+            identical_tasks: rng.chance(1, 40),
             arr: ArrSwarm::random(rng),
             limit: *rng.pick(&[60u64, 200, 600, 1500, 3000, 100_000]),
         }
@@ -291,17 +318,21 @@ pub fn random_taskset(rng: &mut Rng, sw: &TaskSetSwarm) -> TaskSet {
         let mut wcet = (shares[i] * period + 500) / 1000;
         wcet = wcet.clamp(1, sw.max_wcet);
         let arr = random_arrival(rng, period, &sw.arr);
-        let prio = if sw.prio_ties && rng.chance(1, 2) {
+        let prio = if sw.all_equal_prio {
+            1
+        } else if sw.prio_ties && rng.chance(1, 2) {
             rng.below(n as u64) as u32
         } else {
             prios[i]
         };
-        let deadline = match rng.below(6) {
-            0 => period,
-            1 => (period / 5).max(1),
-            2 => rng.range((period / 2).max(1), period),
-            3 => rng.range(period, 3 * period),
-            4 => rng.range(1, period.max(1)),
+        let deadline = match rng.below(14) {
+            0 | 1 => period,
+            2 | 3 => (period / 5).max(1),
+            4 | 5 => rng.range((period / 2).max(1), period),
+            6 | 7 => rng.range(period, 3 * period),
+            8 | 9 => rng.range(1, period.max(1)),
+            10 => 1,
+            11 => rng.range(3 * period, 20 * period),
             _ => rng.range((period / 5).max(1), 3 * period),
         };
         let segs = composition(rng, wcet, 4);
@@ -314,6 +345,16 @@ pub fn random_taskset(rng: &mut Rng, sw: &TaskSetSwarm) -> TaskSet {
             segs,
             max_np,
         });
+    }
+    if sw.identical_tasks && tasks.len() > 1 {
+        let first = tasks[0].clone();
+        for (i, t) in tasks.iter_mut().enumerate().skip(1) {
+            let prio = t.prio;
+            *t = first.clone();
+            if !sw.all_equal_prio {
+                t.prio = prio.max(i as u32 % 3);
+            }
+        }
     }
     TaskSet {
         tasks,
